@@ -81,6 +81,8 @@ struct Shared {
     peers: Mutex<Vec<PeerId>>,
     /// Listen addresses (without `/p2p`) by node index, in the order `Litep2p` reports them.
     listen: Mutex<Vec<Vec<Multiaddr>>>,
+    /// Listen addresses exactly as `Litep2p::listen_addresses` reports them, by node index.
+    reported: Mutex<Vec<Vec<Multiaddr>>>,
     /// Events not yet printed.
     ledger: Mutex<Vec<Entry>>,
     /// When the last (non-periodic) event arrived.
@@ -662,7 +664,9 @@ impl NodeBox {
         self.shared.peers.lock().expect("peers").get(j).copied()
     }
 
-    /// Address of kind `l<k>` / `n<k>` / `w<k>` / `x` / `q` for node `j`.
+    /// Address of kind `l<k>` (listen address `k` + `/p2p/<j>`) / `r<k>` (exactly what node `j`
+    /// reports as its listen address `k`) / `n<k>` (without peer id) / `w<k>` (with a random peer id) /
+    /// `x` (closed port) / `q` (QUIC: no such transport) for node `j`.
     fn address(&self, j: usize, kind: &str) -> Option<Multiaddr> {
         let peer = self.peer_of(j)?;
         let listen = self.shared.listen.lock().expect("listen").get(j).cloned()?;
@@ -680,6 +684,10 @@ impl NodeBox {
         }
         if let Some(k) = kind.strip_prefix('n') {
             return nth(k);
+        }
+        if let Some(k) = kind.strip_prefix('r') {
+            let reported = self.shared.reported.lock().expect("reported").get(j).cloned()?;
+            return k.parse::<usize>().ok().and_then(|k| reported.get(k).cloned());
         }
         if let Some(k) = kind.strip_prefix('w') {
             return nth(k).map(|a| a.with(Protocol::P2p(PeerId::random().into())));
@@ -912,6 +920,7 @@ impl NodeBox {
         self.nodes.push(None);
         self.shared.peers.lock().expect("peers").push(expected_peer);
         self.shared.listen.lock().expect("listen").push(Vec::new());
+        self.shared.reported.lock().expect("reported").push(Vec::new());
         let litep2p = match Litep2p::new(builder.build()) {
             Ok(litep2p) => litep2p,
             Err(e) => {
@@ -933,6 +942,7 @@ impl NodeBox {
                 bases.push(base);
             }
             self.shared.listen.lock().expect("listen")[i] = bases;
+            self.shared.reported.lock().expect("reported")[i] = reported.clone();
         }
         let listen: Vec<String> = reported
             .iter()
